@@ -61,6 +61,25 @@ def ge (a b : Str) : Bool := !ltStr a b
 def upper (cfg : Cfg) (s : Str) : Str := s.flatMap cfg.upper
 def lower (cfg : Cfg) (s : Str) : Str := s.flatMap cfg.lower
 
+/-- `value is None` / `is True` / `is False` on the values `str()` is applied to -/
+def atomIsNone : Atom → Bool
+  | .null => true
+  | _ => false
+def atomIsTrue : Atom → Bool
+  | .bool true => true
+  | _ => false
+def atomIsFalse : Atom → Bool
+  | .bool false => true
+  | _ => false
+
+/-- python `str(value)` -/
+def pyStr : Atom → Str
+  | .null => ['N', 'o', 'n', 'e']
+  | .bool true => ['T', 'r', 'u', 'e']
+  | .bool false => ['F', 'a', 'l', 's', 'e']
+  | .int i => intDec i
+  | .str s => s
+
 /-- the error classes of the hand-written string model inside the translator's error enum -/
 def liftErrClass : Yaql.Strings.Err → Py.Err
   | .valueError => .valueError
